@@ -213,3 +213,436 @@ Lemma range_guard_needed :
   Sp.spec_check S.CRange (S.EVar (S.SArr S.SEmptyArr)) = Sp.SAccept (S.SArr S.SAny) (S.SArr S.SAny) /\
   range_var_ty (ty_of (S.SArr S.SEmptyArr)) = Some TEmptyArr.
 Proof. split; reflexivity. Qed.
+
+(* ---------- expressions: the translation ---------- *)
+(* forgets annotations and Any wrappers; a variable is represented by its type, taken from the
+   environment; a call by its result type (its arguments are contexts of their own, see
+   [call_args_spec]) *)
+Fixpoint erase (G : tyenv) (e : expr) {struct e} : option S.expr :=
+  let erases := fix go (es : list expr) : option (list S.expr) :=
+    match es with
+    | [] => Some []
+    | x :: r => match erase G x, go r with Some a, Some b => Some (a :: b) | _, _ => None end
+    end in
+  let erasep := fix go (ps : list (str * expr)) : option (list S.expr) :=
+    match ps with
+    | [] => Some []
+    | (_, x) :: r => match erase G x, go r with Some a, Some b => Some (a :: b) | _, _ => None end
+    end in
+  let eraseo (o : option expr) : option (option S.expr) :=
+    match o with None => Some None | Some x => option_map Some (erase G x) end in
+  match e with
+  | ENum _ => Some S.ELitNum
+  | EStr _ => Some S.ELitStr
+  | EBool _ => Some S.ELitBool
+  | EVar n _ => match slookup n G with Some t => option_map S.EVar (sty_of t) | None => None end
+  | EAny a _ => erase G a
+  | EArr _ es => option_map S.EArr (erases es)
+  | EMap _ ps => option_map S.EMap (erasep ps)
+  | ECall _ t _ => option_map S.ECall (sty_of t)
+  | EUn op a => option_map (S.EUn (unop_of op)) (erase G a)
+  | EBin op _ l r =>
+      match erase G l, erase G r with Some a, Some b => Some (S.EBin (binop_of op) a b) | _, _ => None end
+  | EIndex _ l i =>
+      match erase G l, erase G i with Some a, Some b => Some (S.EIndex a b) | _, _ => None end
+  | ESlice _ l lo hi =>
+      match erase G l, eraseo lo, eraseo hi with
+      | Some a, Some b, Some c => Some (S.ESlice a b c)
+      | _, _, _ => None
+      end
+  | EDot _ l _ => option_map S.EDot (erase G l)
+  | EGroup a => option_map S.EGroup (erase G a)
+  | EAssert t a => match erase G a, sty_of t with Some a', Some s => Some (S.EAssert a' s) | _, _ => None end
+  end.
+
+Section Erases.
+  Context (G : tyenv).
+  Fixpoint erases (es : list expr) : option (list S.expr) :=
+    match es with
+    | [] => Some []
+    | x :: r => match erase G x, erases r with Some a, Some b => Some (a :: b) | _, _ => None end
+    end.
+  Fixpoint erasep (ps : list (str * expr)) : option (list S.expr) :=
+    match ps with
+    | [] => Some []
+    | (_, x) :: r => match erase G x, erasep r with Some a, Some b => Some (a :: b) | _, _ => None end
+    end.
+  Definition eraseo (o : option expr) : option (option S.expr) :=
+    match o with None => Some None | Some x => option_map Some (erase G x) end.
+End Erases.
+
+Lemma erase_EArr G t es : erase G (EArr t es) = option_map S.EArr (erases G es).
+Proof. reflexivity. Qed.
+Lemma erase_EMap G t ps : erase G (EMap t ps) = option_map S.EMap (erasep G ps).
+Proof. reflexivity. Qed.
+Lemma erase_ESlice G t l lo hi : erase G (ESlice t l lo hi) =
+      match erase G l, eraseo G lo, eraseo G hi with
+      | Some a, Some b, Some c => Some (S.ESlice a b c)
+      | _, _, _ => None
+      end.
+Proof. reflexivity. Qed.
+
+(* ---------- the coercion-free fragment ---------- *)
+(* [plain]: the tree contains no Any wrapper and no annotation that only a conversion by its context
+   explains: every binary node carries the type the operator table gives ([bin_ty], not the
+   inferred annotation of [] + [] / [] * n).  In such a tree every annotation is the type of the
+   source expression itself. *)
+Fixpoint plain (F : list funcdef) (G : tyenv) (e : expr) {struct e} : bool :=
+  let plains := fix go (es : list expr) : bool :=
+    match es with [] => true | x :: r => plain F G x && go r end in
+  let plainp := fix go (ps : list (str * expr)) : bool :=
+    match ps with [] => true | (_, x) :: r => plain F G x && go r end in
+  let plaino (o : option expr) : bool := match o with Some x => plain F G x | None => true end in
+  match e with
+  | ENum _ | EStr _ | EBool _ | EVar _ _ => true
+  | EAny _ _ => false
+  | EArr t es => match es, t with [], TEmptyArr => true | [], _ => false | _, _ => plains es end
+  | EMap t ps => match ps, t with [], TEmptyMap => true | [], _ => false | _, _ => plainp ps end
+  | ECall _ t _ => ty_value t
+  | EUn _ a => plain F G a
+  | EBin op t l r =>
+      plain F G l && plain F G r &&
+      match ety F G l, ety F G r with Some a, Some b => opt_ty_eqb (bin_ty op a b) t | _, _ => false end
+  | EIndex _ l i => plain F G l && plain F G i
+  | ESlice _ l lo hi => plain F G l && plaino lo && plaino hi
+  | EDot _ l _ => plain F G l
+  | EGroup a => plain F G a
+  | EAssert _ a => plain F G a
+  end.
+
+Section Plains.
+  Context (F : list funcdef) (G : tyenv).
+  Fixpoint plains (es : list expr) : bool := match es with [] => true | x :: r => plain F G x && plains r end.
+  Fixpoint plainp (ps : list (str * expr)) : bool :=
+    match ps with [] => true | (_, x) :: r => plain F G x && plainp r end.
+  Definition plaino (o : option expr) : bool := match o with Some x => plain F G x | None => true end.
+End Plains.
+
+Lemma plain_EArr F G t es : plain F G (EArr t es) =
+  match es, t with [], TEmptyArr => true | [], _ => false | _, _ => plains F G es end.
+Proof. destruct es; reflexivity. Qed.
+Lemma plain_EMap F G t ps : plain F G (EMap t ps) =
+  match ps, t with [], TEmptyMap => true | [], _ => false | _, _ => plainp F G ps end.
+Proof. destruct ps; reflexivity. Qed.
+Lemma plain_ESlice F G t l lo hi : plain F G (ESlice t l lo hi) = plain F G l && plaino F G lo && plaino F G hi.
+Proof. reflexivity. Qed.
+
+(* ---------- induction over annotated expressions ---------- *)
+Section ExprInd.
+  Context (P : expr -> Prop).
+  Context (Hnum : forall f, P (ENum f)) (Hstr : forall s, P (EStr s)) (Hbool : forall b, P (EBool b))
+          (Hvar : forall n t, P (EVar n t)) (Hany : forall a t, P a -> P (EAny a t))
+          (Harr : forall t es, Forall P es -> P (EArr t es))
+          (Hmap : forall t ps, Forall (fun p => P (snd p)) ps -> P (EMap t ps))
+          (Hcall : forall n t args, Forall P args -> P (ECall n t args))
+          (Hun : forall op a, P a -> P (EUn op a))
+          (Hbin : forall op t l r, P l -> P r -> P (EBin op t l r))
+          (Hidx : forall t l i, P l -> P i -> P (EIndex t l i))
+          (Hslice : forall t l lo hi, P l -> (forall x, lo = Some x -> P x) -> (forall x, hi = Some x -> P x) ->
+                                      P (ESlice t l lo hi))
+          (Hdot : forall t l k, P l -> P (EDot t l k))
+          (Hgroup : forall a, P a -> P (EGroup a))
+          (Hassert : forall t a, P a -> P (EAssert t a)).
+  Fixpoint expr_ind' (e : expr) : P e :=
+    match e with
+    | ENum f => Hnum f | EStr s => Hstr s | EBool b => Hbool b | EVar n t => Hvar n t
+    | EAny a t => Hany a t (expr_ind' a)
+    | EArr t es => Harr t es ((fix go (l : list expr) : Forall P l :=
+                                 match l with [] => Forall_nil _ | x :: r => Forall_cons _ (expr_ind' x) (go r) end) es)
+    | EMap t ps => Hmap t ps ((fix go (l : list (str * expr)) : Forall (fun p => P (snd p)) l :=
+                                 match l with
+                                 | [] => Forall_nil _
+                                 | (k, x) :: r => Forall_cons (k, x) (expr_ind' x) (go r)
+                                 end) ps)
+    | ECall n t args => Hcall n t args ((fix go (l : list expr) : Forall P l :=
+                                 match l with [] => Forall_nil _ | x :: r => Forall_cons _ (expr_ind' x) (go r) end) args)
+    | EUn op a => Hun op a (expr_ind' a)
+    | EBin op t l r => Hbin op t l r (expr_ind' l) (expr_ind' r)
+    | EIndex t l i => Hidx t l i (expr_ind' l) (expr_ind' i)
+    | ESlice t l lo hi =>
+        Hslice t l lo hi (expr_ind' l)
+          (match lo as o return (forall x, o = Some x -> P x) with
+           | Some y => fun x H => match H in (_ = z) return (match z with Some w => P w | None => True end) with
+                                  | eq_refl => expr_ind' y end
+           | None => fun x H => match H in (_ = z) return (match z with Some w => P w | None => True end) with
+                                | eq_refl => I end
+           end)
+          (match hi as o return (forall x, o = Some x -> P x) with
+           | Some y => fun x H => match H in (_ = z) return (match z with Some w => P w | None => True end) with
+                                  | eq_refl => expr_ind' y end
+           | None => fun x H => match H in (_ = z) return (match z with Some w => P w | None => True end) with
+                                | eq_refl => I end
+           end)
+    | EDot t l k => Hdot t l k (expr_ind' l)
+    | EGroup a => Hgroup a (expr_ind' a)
+    | EAssert t a => Hassert t a (expr_ind' a)
+    end.
+End ExprInd.
+
+(* ---------- checker equations (nested lists) ---------- *)
+Lemma ety_EArr F G t es : ety F G (EArr t es) =
+      match es with
+      | [] => match t with
+              | TEmptyArr => Some t
+              | TArr _ => if ty_ann t then Some t else None
+              | _ => None end
+      | _ :: _ =>
+          match t, etys F G es with
+          | TArr u, Some ts => if forallb (ty_eqb u) ts && ty_ann t then Some t else None
+          | _, _ => None
+          end
+      end.
+Proof. reflexivity. Qed.
+
+Lemma ety_EMap F G t ps : ety F G (EMap t ps) =
+      match ps with
+      | [] => match t with
+              | TEmptyMap => Some t
+              | TMap _ => if ty_ann t then Some t else None
+              | _ => None end
+      | _ :: _ =>
+          match t, etyps F G ps with
+          | TMap u, Some ts =>
+              if forallb (ty_eqb u) ts && ty_ann t && keys_nodup (map fst ps) then Some t else None
+          | _, _ => None
+          end
+      end.
+Proof. reflexivity. Qed.
+
+Lemma ety_ECall F G name t args : ety F G (ECall name t args) =
+      match lookup_sig F name, etys F G args with
+      | Some sg, Some ts => if sig_args_ok sg ts && ty_eqb (fs_ret sg) t then Some t else None
+      | _, _ => None
+      end.
+Proof. reflexivity. Qed.
+
+Lemma ety_ESlice F G t l lo hi : ety F G (ESlice t l lo hi) =
+      match ety F G l with
+      | Some a =>
+          match a with
+          | TArr _ | TEmptyArr | TStr => if ty_eqb a t && etyo F G lo && etyo F G hi then Some t else None
+          | _ => None
+          end
+      | None => None
+      end.
+Proof. reflexivity. Qed.
+
+Lemma opt_ty_eqb_some o t : opt_ty_eqb o t = true -> o = Some t.
+Proof. destruct o; simpl; [|discriminate]. intros H; apply ty_eqb_true in H; congruence. Qed.
+
+Lemma ty_value_sty t : ty_value t = true -> exists s, sty_of t = Some s /\ ty_of s = t.
+Proof. intros H. apply sty_of_value in H as (s & Hs). exists s; split; auto. eapply ty_of_sty_of; eauto. Qed.
+
+Lemma ty_ann_sty t : ty_ann t = true -> exists s, sty_of t = Some s /\ ty_of s = t.
+Proof. unfold ty_ann. intros H. apply andb_true_iff in H as [H _]. apply ty_value_sty; auto. Qed.
+
+(* joining elements that all have the same type gives that type *)
+Lemma sjoin_same k1 k2 u : snd (Sp.sjoin (k1, u) (k2, u)) = u.
+Proof.
+  destruct k1, k2; simpl; try rewrite TypesSpecProofs.conv_b_refl; try rewrite sty_eqb_refl; simpl; auto.
+  unfold Sp.cjoin. destruct u; simpl; try rewrite !sty_eqb_refl; reflexivity.
+Qed.
+
+Lemma fold_sjoin_same u : forall l x, snd x = u -> Forall (fun y => snd y = u) l ->
+  snd (fold_left Sp.sjoin l x) = u.
+Proof.
+  induction l as [|y l IH]; intros x Hx Hall; simpl; auto.
+  inversion Hall; subst. apply IH; auto. destruct x, y; simpl in *; subst. apply sjoin_same.
+Qed.
+
+(* ---------- forward: a Static-typed coercion-free tree is typed by the specification ---------- *)
+Definition spec_typed (F : list funcdef) (G : tyenv) (A : expr) : Prop :=
+  forall t, ety F G A = Some t -> plain F G A = true ->
+  exists e k s, erase G A = Some e /\ Sp.spec_tc e = Some (k, s) /\ t = ty_of s.
+
+Lemma elems_spec F G es :
+  Forall (spec_typed F G) es ->
+  forall ts, etys F G es = Some ts -> plains F G es = true ->
+  exists el ks, erases G es = Some el /\ Sp.all_some (map Sp.spec_tc el) = Some ks /\
+                map (fun x => ty_of (snd x)) ks = ts.
+Proof.
+  induction 1 as [|A es HA _ IH]; intros ts Ht Hp.
+  - simpl in Ht. inversion Ht; subst. exists [], []. repeat split; reflexivity.
+  - cbn [etys] in Ht. cbn [plains] in Hp. apply andb_true_iff in Hp as [Hp1 Hp2].
+    destruct (ety F G A) as [t|] eqn:Ea; [|discriminate].
+    destruct (etys F G es) as [ts'|] eqn:Ees; inversion Ht; subst.
+    destruct (HA t Ea Hp1) as (e & k & s & He & Hs & ->).
+    destruct (IH ts' eq_refl Hp2) as (el & ks & Hel & Hks & Hm).
+    exists (e :: el), ((k, s) :: ks). cbn [erases]. rewrite He, Hel. simpl. rewrite Hs, Hks. simpl.
+    repeat split; auto. congruence.
+Qed.
+
+Lemma pairs_spec F G ps :
+  Forall (fun p => spec_typed F G (snd p)) ps ->
+  forall ts, etyps F G ps = Some ts -> plainp F G ps = true ->
+  exists el ks, erasep G ps = Some el /\ Sp.all_some (map Sp.spec_tc el) = Some ks /\
+                map (fun x => ty_of (snd x)) ks = ts.
+Proof.
+  induction 1 as [|[key A] ps HA _ IH]; intros ts Ht Hp.
+  - simpl in Ht. inversion Ht; subst. exists [], []. repeat split; reflexivity.
+  - cbn [etyps] in Ht. cbn [plainp] in Hp. apply andb_true_iff in Hp as [Hp1 Hp2]. simpl in HA.
+    destruct (ety F G A) as [t|] eqn:Ea; [|discriminate].
+    destruct (etyps F G ps) as [ts'|] eqn:Ees; inversion Ht; subst.
+    destruct (HA t Ea Hp1) as (e & k & s & He & Hs & ->).
+    destruct (IH ts' eq_refl Hp2) as (el & ks & Hel & Hks & Hm).
+    exists (e :: el), ((k, s) :: ks). cbn [erasep]. rewrite He, Hel. simpl. rewrite Hs, Hks. simpl.
+    repeat split; auto. congruence.
+Qed.
+
+Lemma all_same u : forall ks, forallb (ty_eqb (ty_of u)) (map (fun x : Sp.kind * S.sty => ty_of (snd x)) ks) = true ->
+  Forall (fun y => snd y = u) ks.
+Proof.
+  induction ks as [|x ks IH]; simpl; intros H; constructor; apply andb_true_iff in H as [H1 H2]; auto.
+  apply ty_eqb_true, ty_of_inj in H1. auto.
+Qed.
+
+Lemma opt_spec F G o :
+  (forall x, o = Some x -> spec_typed F G x) -> etyo F G o = true -> plaino F G o = true ->
+  exists eo, eraseo G o = Some eo /\
+    match eo with None => True | Some x => exists k, Sp.spec_tc x = Some (k, S.SNum) end.
+Proof.
+  intros H Ht Hp. destruct o as [x|]; simpl in *.
+  - apply opt_ty_eqb_some in Ht. destruct (H x eq_refl TNum Ht Hp) as (e & k & s & He & Hs & Hts).
+    destruct s; try discriminate. rewrite He. simpl. eexists; split; [reflexivity|]. simpl. eauto.
+  - exists None; auto.
+Qed.
+
+Theorem static_to_spec F G : forall A, spec_typed F G A.
+Proof.
+  induction A using expr_ind'; intros ty0 Hty Hp.
+  - inversion Hty; subst. exists S.ELitNum, Sp.KConst, S.SNum. auto.
+  - inversion Hty; subst. exists S.ELitStr, Sp.KConst, S.SString. auto.
+  - inversion Hty; subst. exists S.ELitBool, Sp.KConst, S.SBool. auto.
+  - (* variable *)
+    cbn [ety] in Hty.
+    match type of Hty with (if ?c then _ else _) = _ => destruct c eqn:Ec; inversion Hty; subst end.
+    apply andb_true_iff in Ec as [Ec Ec3]. apply andb_true_iff in Ec as [Ec1 Ec2].
+    apply opt_ty_eqb_some in Ec2. destruct (ty_ann_sty _ Ec3) as (s & Hs & Hts).
+    exists (S.EVar s), Sp.KVar, s. cbn [erase]. rewrite Ec2, Hs. simpl. auto.
+  - discriminate.
+  - (* array literal *)
+    rewrite ety_EArr in Hty. rewrite plain_EArr in Hp. rewrite erase_EArr.
+    destruct es as [|x es].
+    + destruct t; try discriminate. inversion Hty; subst.
+      exists (S.EArr []), Sp.KConst, S.SEmptyArr. simpl. auto.
+    + destruct t; try discriminate.
+      destruct (etys F G (x :: es)) as [ts|] eqn:Ets; [|discriminate].
+      match type of Hty with (if ?c then _ else _) = _ => destruct c eqn:Ec; inversion Hty; subst end.
+      apply andb_true_iff in Ec as [Ec1 Ec2].
+      destruct (elems_spec F G (x :: es) H ts Ets Hp) as (el & ks & Hel & Hks & Hm).
+      destruct (ty_ann_sty _ Ec2) as (s0 & Hs & Hts). destruct s0 as [| | | |s|s| |]; try discriminate. simpl in Hts. inversion Hts; subst t.
+      rewrite Hel. simpl. rewrite <- Hm in Ec1. apply all_same in Ec1.
+      destruct ks as [|k0 ks]; [destruct el; simpl in Hks; [discriminate Hel || (cbn [erases] in Hel; destruct (erase G x), (erases G es); discriminate)|destruct (Sp.spec_tc e); try discriminate; destruct (Sp.all_some (map Sp.spec_tc el)); discriminate]|].
+      inversion Ec1 as [|? ? Hk0 Hks'].
+      eexists _, _, (S.SArr s). split; [reflexivity|]. split; [|reflexivity].
+      cbn [Sp.spec_tc]. rewrite Hks. rewrite fold_sjoin_same with (u := s); auto.
+  - (* map literal *)
+    rewrite ety_EMap in Hty. rewrite plain_EMap in Hp. rewrite erase_EMap.
+    destruct ps as [|p ps].
+    + destruct t; try discriminate. inversion Hty; subst.
+      exists (S.EMap []), Sp.KConst, S.SEmptyMap. simpl. auto.
+    + destruct t; try discriminate.
+      destruct (etyps F G (p :: ps)) as [ts|] eqn:Ets; [|discriminate].
+      match type of Hty with (if ?c then _ else _) = _ => destruct c eqn:Ec; inversion Hty; subst end.
+      apply andb_true_iff in Ec as [Ec Ec3]. apply andb_true_iff in Ec as [Ec1 Ec2].
+      destruct (pairs_spec F G (p :: ps) H ts Ets Hp) as (el & ks & Hel & Hks & Hm).
+      destruct (ty_ann_sty _ Ec2) as (s0 & Hs & Hts). destruct s0 as [| | | |s|s| |]; try discriminate. simpl in Hts. inversion Hts; subst t.
+      rewrite Hel. simpl. rewrite <- Hm in Ec1. apply all_same in Ec1.
+      destruct ks as [|k0 ks].
+      { destruct p as [key a]. cbn [erasep] in Hel. destruct (erase G a), (erasep G ps); try discriminate.
+        inversion Hel; subst. simpl in Hks. destruct (Sp.spec_tc e); try discriminate.
+        destruct (Sp.all_some (map Sp.spec_tc l)); discriminate. }
+      inversion Ec1 as [|? ? Hk0 Hks'].
+      eexists _, _, (S.SMap s). split; [reflexivity|]. split; [|reflexivity].
+      cbn [Sp.spec_tc]. rewrite Hks. rewrite fold_sjoin_same with (u := s); auto.
+  - (* call: its result type *)
+    rewrite ety_ECall in Hty. cbn [plain] in Hp.
+    destruct (lookup_sig F n) as [sg|]; [|discriminate].
+    destruct (etys F G args) as [ts|]; [|discriminate].
+    match type of Hty with (if ?c then _ else _) = _ => destruct c eqn:Ec; inversion Hty; subst end.
+    destruct (ty_value_sty _ Hp) as (s & Hs & Hts).
+    exists (S.ECall s), Sp.KVar, s. cbn [erase]. rewrite Hs. simpl. auto.
+  - (* unary *)
+    cbn [ety] in Hty. cbn [plain] in Hp.
+    destruct (ety F G A) as [ta|] eqn:Ea; [|destruct op; discriminate].
+    destruct (IHA ta Ea Hp) as (e & k & s & He & Hs & ->).
+    cbn [erase]. rewrite He. simpl.
+    destruct op, s; simpl in Hty; try discriminate; inversion Hty; subst;
+      eexists _, k, _; (split; [reflexivity|]); cbn [Sp.spec_tc]; rewrite Hs; simpl; auto.
+  - (* binary *)
+    cbn [ety] in Hty. cbn [plain] in Hp.
+    apply andb_true_iff in Hp as [Hp Hp3]. apply andb_true_iff in Hp as [Hp1 Hp2].
+    destruct (ety F G A1) as [ta|] eqn:Ea; [|discriminate].
+    destruct (ety F G A2) as [tb|] eqn:Eb; [|discriminate].
+    match type of Hty with (if ?c then _ else _) = _ => destruct c eqn:Ec; inversion Hty; subst end.
+    apply opt_ty_eqb_some in Hp3.
+    destruct (IHA1 ta Ea Hp1) as (e1 & k1 & s1 & He1 & Hs1 & ->).
+    destruct (IHA2 tb Eb Hp2) as (e2 & k2 & s2 & He2 & Hs2 & ->).
+    destruct (bin_ty_spec _ _ _ _ Hp3) as (s & Hop & ->).
+    cbn [erase]. rewrite He1, He2.
+    eexists _, _, s. split; [reflexivity|]. cbn [Sp.spec_tc]. rewrite Hs1, Hs2, Hop. auto.
+  - (* index *)
+    cbn [ety] in Hty. cbn [plain] in Hp. apply andb_true_iff in Hp as [Hp1 Hp2].
+    destruct (ety F G A1) as [ta|] eqn:Ea; [|discriminate].
+    destruct (ety F G A2) as [tb|] eqn:Eb; [|destruct ta; discriminate].
+    destruct (IHA1 ta Ea Hp1) as (e1 & k1 & s1 & He1 & Hs1 & ->).
+    destruct (IHA2 tb Eb Hp2) as (e2 & k2 & s2 & He2 & Hs2 & ->).
+    cbn [erase]. rewrite He1, He2.
+    destruct s1; simpl in Hty; try discriminate; destruct s2; simpl in Hty; try discriminate.
+    + match type of Hty with (if ?c then _ else _) = _ => destruct c eqn:Ec; inversion Hty; subst end.
+      destruct ty0; try discriminate.
+      eexists _, _, S.SString. split; [reflexivity|]. cbn [Sp.spec_tc]. rewrite Hs1, Hs2. simpl. auto.
+    + match type of Hty with (if ?c then _ else _) = _ => destruct c eqn:Ec; inversion Hty; subst end.
+      apply andb_true_iff in Ec as [Ec _]. apply ty_eqb_true in Ec.
+      eexists _, _, s1. split; [reflexivity|]. cbn [Sp.spec_tc]. rewrite Hs1, Hs2. simpl. auto.
+    + match type of Hty with (if ?c then _ else _) = _ => destruct c eqn:Ec; inversion Hty; subst end.
+      apply andb_true_iff in Ec as [Ec _]. apply ty_eqb_true in Ec.
+      eexists _, _, s1. split; [reflexivity|]. cbn [Sp.spec_tc]. rewrite Hs1, Hs2. simpl. auto.
+  - (* slice *)
+    rewrite ety_ESlice in Hty. rewrite plain_ESlice in Hp. rewrite erase_ESlice.
+    apply andb_true_iff in Hp as [Hp Hp3]. apply andb_true_iff in Hp as [Hp1 Hp2].
+    destruct (ety F G A) as [ta|] eqn:Ea; [|discriminate].
+    destruct (IHA ta Ea Hp1) as (e1 & k1 & s1 & He1 & Hs1 & ->).
+    assert (Hc : ty_eqb (ty_of s1) t && etyo F G lo && etyo F G hi = true /\ ty0 = t /\ Sp.slice_type_s s1 = Some s1).
+    { destruct s1; simpl in Hty; try discriminate;
+        match type of Hty with (if ?c then _ else _) = _ => destruct c eqn:Ec; inversion Hty; subst end; auto. }
+    destruct Hc as (Hc & -> & Hsl). apply andb_true_iff in Hc as [Hc Hc3]. apply andb_true_iff in Hc as [Hc1 Hc2].
+    apply ty_eqb_true in Hc1. subst t.
+    destruct (opt_spec F G lo H Hc2 Hp2) as (elo & Helo & Hlo).
+    destruct (opt_spec F G hi H0 Hc3 Hp3) as (ehi & Hehi & Hhi).
+    rewrite He1, Helo, Hehi.
+    assert (BD : forall eo, match eo with None => True | Some x => exists k, Sp.spec_tc x = Some (k, S.SNum) end ->
+               exists kb, match eo with
+                          | None => Some Sp.KConst
+                          | Some x => match Sp.spec_tc x with Some (k', S.SNum) => Some k' | _ => None end
+                          end = Some kb).
+    { intros [x|] Hx; [destruct Hx as (k & ->); eauto|eauto]. }
+    destruct (BD _ Hlo) as (kl & Hkl). destruct (BD _ Hhi) as (kh & Hkh).
+    eexists _, _, s1. split; [reflexivity|]. cbn [Sp.spec_tc]. rewrite Hs1, Hkl, Hkh, Hsl. auto.
+  - (* dot *)
+    cbn [ety] in Hty. cbn [plain] in Hp.
+    destruct (ety F G A) as [ta|] eqn:Ea; [|discriminate].
+    destruct (IHA ta Ea Hp) as (e1 & k1 & s1 & He1 & Hs1 & ->).
+    cbn [erase]. rewrite He1. simpl.
+    destruct s1; simpl in Hty; try discriminate.
+    match type of Hty with (if ?c then _ else _) = _ => destruct c eqn:Ec; inversion Hty; subst end.
+    apply andb_true_iff in Ec as [Ec _]. apply ty_eqb_true in Ec.
+    eexists _, _, s1. split; [reflexivity|]. cbn [Sp.spec_tc]. rewrite Hs1. simpl. auto.
+  - (* group *)
+    cbn [ety] in Hty. cbn [plain] in Hp.
+    destruct (IHA ty0 Hty Hp) as (e1 & k1 & s1 & He1 & Hs1 & ->).
+    cbn [erase]. rewrite He1. simpl. eexists _, _, s1. split; [reflexivity|]. cbn [Sp.spec_tc]. eauto.
+  - (* type assertion *)
+    cbn [ety] in Hty. cbn [plain] in Hp.
+    destruct (ety F G A) as [ta|] eqn:Ea; [|discriminate].
+    destruct (IHA ta Ea Hp) as (e1 & k1 & s1 & He1 & Hs1 & ->).
+    destruct s1; simpl in Hty; try discriminate.
+    match type of Hty with (if ?c then _ else _) = _ => destruct c eqn:Ec; inversion Hty; subst end.
+    assert (Hv : ty_value ty0 = true).
+    { apply andb_true_iff in Ec as [_ Ec]. unfold ty_decl in Ec. apply andb_true_iff in Ec as [Ec _].
+      clear -Ec. induction ty0; simpl in *; auto; discriminate. }
+    destruct (ty_value_sty _ Hv) as (s & Hs & Hts). subst ty0.
+    rewrite assert_spec in Ec. apply andb_true_iff in Ec as [Ec _].
+    cbn [erase]. rewrite He1, Hs.
+    eexists _, _, s. split; [reflexivity|]. cbn [Sp.spec_tc]. rewrite Hs1. rewrite Ec. auto.
+Qed.
